@@ -1,3 +1,13 @@
+//! vh-relayer: C29 (relayer records every DA block's events exactly once) and
+//! C30 (producer advances the DA height to the largest fitting prefix).
+mod c29;
+mod c30;
+
 fn main() {
-    mcx::machinery_failure("not built yet");
+    let cli = mcx::Cli::parse();
+    match cli.property.as_str() {
+        "C29" => c29::run(&cli),
+        "C30" => c30::run(&cli),
+        other => mcx::machinery_failure(&format!("vh-relayer does not serve {other}")),
+    }
 }
